@@ -99,9 +99,21 @@ def redraw_numeric(rng: random.Random, g: dict) -> dict:
 def make_draw(rng: random.Random, groups: list[dict], dtype="float64", pdtype="float64") -> dict:
     d = {"dtype": dtype, "pdtype": pdtype, "seed": rng.randrange(1 << 30), "groups": groups}
     draw_grad_mode(rng, d)
+    draw_frozen(rng, d)
     if dtype == "float64" and pdtype == "float64":
         draw_scales(rng, d)
     return d
+
+
+def draw_frozen(rng: random.Random, d: dict, p: float = 0.2):
+    """requires_grad flags: with "toggle_rg" a parameter without a gradient at a step is frozen (requires_grad=False) for that step and
+    unfrozen when its gradient is back (fine-tuning schedules); "frozen0" lists the parameters that are frozen when the optimizer is
+    CONSTRUCTED.  The flags carry no meaning for the optimizer: an absent gradient is an absent gradient."""
+    d.pop("toggle_rg", None)
+    d.pop("frozen0", None)
+    if rng.random() < p:
+        d["toggle_rg"] = True
+        d["frozen0"] = [[gi, pi] for gi, g in enumerate(d["groups"]) for pi in range(len(g["shapes"])) if rng.random() < 0.4]
 
 
 def draw_grad_mode(rng: random.Random, d: dict):
